@@ -120,6 +120,8 @@ REJECTIONS = {
     "generalized-contraction-pd": (dict(contraction="gen-pd", shellset="+d-pure"), ("fchk", "molden", "molekel"), (False,)),
     "occs_aminusb": (dict(mo="aminusb"), ("molden", "molekel", "wfn", "wfx"), (False,)),
     "occs_aminusb-neg": (dict(mo="aminusb-neg"), ("molden", "molekel", "wfn", "wfx"), (False,)),
+    "occs_aminusb-balanced": (dict(mo="aminusb-balanced"), ("molden", "molekel", "wfn", "wfx"), (False,)),
+    "occs_aminusb-zero": (dict(mo="aminusb-zero"), ("molden", "molekel", "wfn", "wfx"), (False,)),
     "pure-functions": (dict(shellset="+d-pure"), ("wfn", "wfx"), (False, True)),
     "non-aufbau": (dict(mo="fractional"), ("fchk",), (False, True)),
     "non-aufbau-beta-hole": (dict(mo="beta-hole"), ("fchk",), (False, True)),
@@ -166,6 +168,8 @@ def rejection_worker(chunk, seed, tier):
                     obj.extra = {k: v for k, v in obj.extra.items() if k != "schema_name"}
                 elif reason == "json-qcschema_basis":
                     obj.extra = dict(obj.extra, schema_name="qcschema_basis")
+                elif reason == "json-generalized-orbitals":  # spinpol (required) cannot be derived from generalized orbitals
+                    obj = attrs.evolve(obj, charge=None, spinpol=None, nelec=None, mo=MolecularOrbitals("generalized", None, None, occs=np.array([1.0, 1.0]), coeffs=np.ones((4, 2)), energies=np.zeros(2)))
             sig = f"{target}:dump_one:rejection:{reason}:allow={allow}"
             preflight(part, f"{target}.dump_one [{reason}] allow_changes={allow}", info, lambda: call_dump("one", obj, path, fmt, allow, {}), path, sig, pre)
     finally:
@@ -284,13 +288,14 @@ def write_fault_worker(chunk, seed, tier):
             if cap < n:
                 part.cov[f"write_cap_hit:{name}:{kind}"] = cap
             part.cov[f"writes:{name}:{kind}"] = n
-            for k in range(1, cap + 1):
+            faults = [(k, False) for k in range(1, cap + 1)] + [(k, True) for k in sorted({1, 2, cap}) if 1 <= k <= cap]  # (write index, message-less exception)
+            for k, bare in faults:
                 part.count()
-                part.nontrivial((name, kind, k))
-                info = {"format": name, "operation": kind, "fail_at_write": k, "writes_in_fault_free_run": n}
+                part.nontrivial((name, kind, k, bare))
+                info = {"format": name, "operation": kind, "fail_at_write": k, "writes_in_fault_free_run": n, **({"exception": "without arguments"} if bare else {})}
                 if len(part.samples) < 1 and k == 2:
                     part.sample(info)
-                with faultio.OpenPatch(fail_at=k) as op, warnings.catch_warnings():
+                with faultio.OpenPatch(fail_at=k, bare=bare) as op, warnings.catch_warnings():
                     warnings.simplefilter("ignore")
                     try:
                         fn()
@@ -317,10 +322,14 @@ def input_cases(ctx):
     def boom(data, i):
         raise ValueError("boom")
 
+    def boom_bare(data, i):
+        raise ValueError  # no message
+
     cases = [
         ("unknown-program", dict(fmt="nwchem"), "FileFormatError"),
         ("unknown-field", dict(fmt="gaussian", template="{nosuch}\n{geometry}"), "WriteInputError"),
         ("atom_line-raises", dict(fmt="orca", atom_line=boom), "WriteInputError"),
+        ("atom_line-raises-without-message", dict(fmt="gaussian", atom_line=boom_bare), "WriteInputError"),
         ("bad-format-spec", dict(fmt="gaussian", template="{charge:s}\n{geometry}"), "WriteInputError"),
         ("unbalanced-brace", dict(fmt="orca", template="{geometry"), "WriteInputError"),
     ]
@@ -371,7 +380,7 @@ def run(ctx):
         # FCHK declares neither mo nor obasis as required; without mo it fails while writing (DumpError), which the statement allows
         targets = [t for t in wfn.TARGETS if not (reason == "no-mo" and t == "fchk")]
         rej += [(reason, t, a, pre) for t in targets for a in (False, True) for pre in (False, True)]
-    rej += [(r, "json_qcschema", a, pre) for r in ("json-no-schema_name", "json-qcschema_basis") for a in (False, True) for pre in (False, True)]
+    rej += [(r, "json_qcschema", a, pre) for r in ("json-no-schema_name", "json-qcschema_basis", "json-generalized-orbitals") for a in (False, True) for pre in (False, True)]
     pmap(ctx, rejection_worker, rej, chunk=4)
     selection_cases(ctx)
     many = [(n, b, it, pre) for n in MANY for b in (None, 0, 1, 2, "empty") for it in ("list", "generator") for pre in (False, True)]
@@ -384,7 +393,7 @@ def run(ctx):
     ctx.rule = (
         "full products: every non-empty subset of each format's required attributes set to None x allow_changes x target {absent, pre-existing with sentinel bytes} for all dump_one and dump_many formats; "
         "every prepare_dump rejection reason x applicable targets; unknown/unsupported format selections; dump_many with the faulty frame at index 0/1/2, no fault, empty sequence x list/generator; "
-        "an OSError injected at the k-th write call for every k of the fault-free run (cap 200) for every format's dump_one, dump_many and both input writers; write_input failure reasons. "
+        "an OSError injected at the k-th write call for every k of the fault-free run (cap 200; at the first, second and last write also an exception without arguments) for every format's dump_one, dump_many and both input writers; write_input failure reasons. "
         "Each execution is judged on exception type, bytes of the pre-existing target, audit-hook record of opens for writing, and closure of every file object opened by iodata.api."
     )
     ctx.assumptions += ["iodata.api.open is replaced from outside by a counting/faulting wrapper (no source hook)", "objects are the default C02 case of each format with 3 atoms"]
